@@ -29,12 +29,13 @@ type fault struct {
 	K     int    `json:"k"`     // byte offset / callback index / packet position
 	Gate  string `json:"gate"`  // gate at which an exception is injected or the context is cancelled
 	Occ   int    `json:"occ"`   // occurrence of that gate (1-based)
+	WFail bool   `json:"cancel_write_fails,omitempty"` // from the moment of cancellation on, every write on the connection fails
 	Far   bool   `json:"far_deadline,omitempty"` // the caller's context also carries a deadline far beyond the read timeout
 	Sched string `json:"sched"` // "" | recv-first (sender resumes after the receiver has handled the injected packet) | watch-first (the cancel-watch checks before the failing receiver has returned)
 }
 
 func (f fault) String() string {
-	return fmt.Sprintf("%s k=%d gate=%s#%d sched=%s far=%v", f.Kind, f.K, f.Gate, f.Occ, f.Sched, f.Far)
+	return fmt.Sprintf("%s k=%d gate=%s#%d sched=%s far=%v wfail=%v", f.Kind, f.K, f.Gate, f.Occ, f.Sched, f.Far, f.WFail)
 }
 
 type scenSpec struct {
@@ -301,6 +302,12 @@ func runScenario(sp scenSpec, f fault, rt time.Duration) (*scenOutcome, error) {
 			out.gateLen[point] = append(out.gateLen[point], len(w)-sc.helloLen)
 			mu.Unlock()
 		}
+		if point == f.Gate && n == f.Occ && strings.HasPrefix(f.Kind, "exception") {
+			// the server fails the query here: nothing of the regular script follows
+			mu.Lock()
+			excSent = true
+			mu.Unlock()
+		}
 		switch point {
 		case "sender.afterQueryFlush":
 			feed(phase1)
@@ -337,6 +344,11 @@ func runScenario(sp scenSpec, f fault, rt time.Duration) (*scenOutcome, error) {
 			case "cancel":
 				w, _, _, _ := conn.snapshot()
 				out.cancelAtWritten = len(w) - sc.helloLen
+				if f.WFail {
+					conn.mu.Lock()
+					conn.failWriteAt = len(conn.written)
+					conn.mu.Unlock()
+				}
 				cancelParent()
 				if f.Sched == "recv-first" {
 					time.Sleep(rt + 20*time.Millisecond) // the receiver notices the cancellation while the gated goroutine is held
@@ -523,6 +535,159 @@ func checkC04(R *Result, sp scenSpec, f fault, o, base *scenOutcome) {
 
 var c04Kinds = []string{"select", "insert", "stream"}
 
+// ---- correspondence with Model.Do: the observed outcome must be among the outcomes the model reaches,
+// over all schedules, for the abstracted scenario
+
+// abstractScenario maps a scenario + fault to the sender program and server stream of Model.Do
+func abstractScenario(sp scenSpec, f fault, base *scenOutcome) (acts, pkts string, ok bool) {
+	// sender program from the fault-free gate trace
+	var a []string
+	bounds := flushBounds(base)
+	flushIdx := 0 // index into bounds (bounds[0] = 0)
+	flush := func() {
+		flushIdx++
+		tok := "f"
+		if (f.Kind == "write-error" || f.Kind == "exception+write-error") && flushIdx < len(bounds) {
+			lo, hi := bounds[flushIdx-1], bounds[flushIdx]
+			if f.K >= lo && f.K < hi {
+				if f.K == lo {
+					tok = "fb"
+				} else {
+					tok = "fm"
+				}
+			}
+		}
+		a = append(a, tok)
+	}
+	cbs := 0
+	for _, g := range base.gates {
+		switch g {
+		case "sender.afterEncodeQuery":
+			a = append(a, "e9")
+		case "sender.afterQueryFlush":
+			flush()
+		case "sender.beforeInputFlush":
+			a = append(a, "e5")
+		case "sender.afterInputFlush":
+			flush()
+		case "harness.input":
+			if f.Kind == "input-error" && cbs == f.K {
+				a = append(a, "cf")
+			} else {
+				a = append(a, "c")
+			}
+			cbs++
+		case "sender.beforeFinalFlush":
+			if sp.Kind != "select" {
+				a = append(a, "e2")
+			}
+		case "sender.done":
+			if sp.Kind != "select" {
+				flush()
+			} else {
+				a = append(a, "f")
+			}
+		}
+	}
+	if f.Kind == "input-error" && f.K >= cbs {
+		return "", "", false // the failing round is never reached
+	}
+	p := "o,s"
+	switch f.Kind {
+	case "none", "write-error", "input-error":
+	case "cut":
+		if f.K >= base.srvLen {
+			return "", "", false
+		}
+		mid := "em"
+		if f.K == 0 || inInts(base.srvBounds, f.K) {
+			mid = "eb"
+		}
+		p = "o," + mid
+		if f.K == 0 {
+			p = mid
+		}
+	case "callback", "unknown-code", "unexpected-packet":
+		p = "o,bm"
+	case "exception", "exception+write-error":
+		p = "o,x"
+	case "exception-cut":
+		p = "o,em"
+	default:
+		return "", "", false
+	}
+	return strings.Join(a, ","), p, true
+}
+
+var c04OutcomeCache = map[string]string{}
+
+func observedSummary(f fault, o, base *scenOutcome) string {
+	s := "ok"
+	if o.err != nil {
+		s = "err"
+	}
+	switch {
+	case o.closed:
+		s += ":closed"
+	case bytes.Equal(o.postWritten, []byte{4}) && (o.err == nil || inInts(flushBounds(base), len(o.written))) &&
+		(o.pingErr == nil || f.Kind == "cut" && (f.K == 0 || inInts(o.srvBounds, f.K))):
+		s += ":open-boundary"
+	default:
+		s += ":open-dirty"
+	}
+	if strings.HasPrefix(o.errClass, "exception") {
+		s += ":exc"
+	}
+	return s
+}
+
+func correspondC04(c *Ctx, sp scenSpec, f fault, o, base *scenOutcome) { correspondDo(c, sp, f, o, base, false) }
+
+func correspondDo(c *Ctx, sp scenSpec, f fault, o, base *scenOutcome, env bool) {
+	if c.D == nil || o.hung {
+		return
+	}
+	af := f
+	if env {
+		af = fault{Kind: "none"}
+	}
+	acts, pkts, ok := abstractScenario(sp, af, base)
+	if !ok {
+		return
+	}
+	if o.err == nil && (f.Kind == "unknown-code" || f.Kind == "unexpected-packet" || f.Kind == "callback") {
+		return // the injected packet lies after EndOfStream / the callback index is never reached: not this abstraction
+	}
+	key := acts + " " + pkts
+	envS := " 0"
+	if env {
+		envS = " 1"
+	}
+	key += envS
+	ans, hit := c04OutcomeCache[key]
+	if !hit {
+		ans = c.D.Ask("c04.outcomes 111 " + key)
+		c04OutcomeCache[key] = ans
+	}
+	c.R.Compared()
+	parts := strings.Fields(ans)
+	if len(parts) != 3 || parts[0] != "ok" {
+		c.R.Violate(Violation{Kind: "correspondence", Key: "model-do-bad-answer", What: "model driver: " + ans, Case: caseOf(sp, f, o)})
+		return
+	}
+	obs := observedSummary(f, o, base)
+	for _, m := range strings.Split(parts[2], ",") {
+		if strings.TrimSuffix(m, ":cancel") == obs {
+			return
+		}
+	}
+	cs := caseOf(sp, f, o)
+	cs["model_program"] = key
+	cs["model_outcomes"] = parts[2]
+	cs["observed"] = obs
+	c.R.Violate(Violation{Kind: "correspondence", Key: "outcome-not-in-model", What: fmt.Sprintf("the outcome observed on the implementation (%s) is not among the outcomes Model.Do reaches over all schedules for the abstracted scenario (%s): %s", obs, key, parts[2]), Case: cs, Obligation: "Model.Do corresponds to Client.Do"})
+}
+
 func c04Faults(r *Rng, sp scenSpec, base *scenOutcome, thorough bool) []fault {
 	var fs []fault
 	pick := func(n, want int) []int {
@@ -634,6 +799,7 @@ func runC04(c *Ctx) {
 			continue
 		}
 		checkC04(R, sp, fault{Kind: "none"}, base, base)
+		correspondC04(c, sp, fault{Kind: "none"}, base, base)
 		if len(R.Samples) < 3 {
 			R.Sample(map[string]any{"scenario": sp, "client_bytes": len(base.written), "server_bytes": base.srvLen, "callbacks": base.callbacks, "gates": strings.Join(base.gates, " ")})
 		}
@@ -649,6 +815,7 @@ func runC04(c *Ctx) {
 			}
 			R.Count("result:" + o.errClass)
 			checkC04(R, sp, f, o, base)
+			correspondC04(c, sp, f, o, base)
 		}
 	}
 }
@@ -710,7 +877,9 @@ func checkC10(R *Result, sp scenSpec, f fault, o, base *scenOutcome, rt time.Dur
 				}
 			}
 		}
-		if recvEndedFirst && inInts(flushBounds(base), n) && bytes.Equal(o.written, base.written[:min(n, len(base.written))]) {
+		if f.WFail && inInts(flushBounds(base), n) {
+			R.Count("cancel:packet-write-failed")
+		} else if recvEndedFirst && inInts(flushBounds(base), n) && bytes.Equal(o.written, base.written[:min(n, len(base.written))]) {
 			// the server had already ended the query when the context was cancelled: nothing to cancel
 			R.Count("cancel:after-end-of-stream")
 		} else if f.Kind == "deadline" && inInts(flushBounds(base), n) {
@@ -766,6 +935,7 @@ func runC10(c *Ctx) {
 				fs = append(fs, fault{Kind: "cancel", Gate: g, Occ: occ})
 				if strings.HasPrefix(g, "sender.") && (occ == 1 || c.Thorough) {
 					fs = append(fs, fault{Kind: "cancel", Gate: g, Occ: occ, Far: true})
+					fs = append(fs, fault{Kind: "cancel", Gate: g, Occ: occ, WFail: true})
 					fs = append(fs, fault{Kind: "cancel", Gate: g, Occ: occ, Sched: "recv-first"})
 				}
 			}
@@ -782,6 +952,9 @@ func runC10(c *Ctx) {
 			R.Count("cancel-at:" + f.Gate)
 			R.Count("result:" + o.errClass)
 			checkC10(R, sp, f, o, base, rt)
+			if f.Kind == "cancel" && !f.WFail {
+				correspondDo(c, sp, f, o, base, true)
+			}
 		}
 	}
 	c10Handshake(c)
